@@ -32,7 +32,7 @@ vars == <<decl, use, orders, style, walk>>
 
 Local == [s \in Sites |-> CASE s = "v1.class" -> "T" [] s = "v1.path" -> "p" [] s = "v1.msgvar" -> "p"
                             [] s = "v2.class" -> "Shape" [] s = "v2.path" -> "name" [] s = "v2.arg" -> "q"]
-Orderable == {"top", "validations", "propertyConstraints", "constraints", "prefixes", "levelList", "operands"}
+Orderable == {"top", "validations", "validation", "propertyConstraints", "constraints", "prefixes", "levelList", "operands"}
 Styles == {"quote", "flow", "comments", "blank", "indent"}
 
 Init ==
